@@ -78,3 +78,39 @@ def nodesOfD (db : Db) (root : Hash) (fuel : Nat) : Except TErr (List (Path × A
   nodesLoopD H db root fuel Fog.init []
 
 end PyTrie.HexD
+
+/-! ### The walk as callers run it, at raw level: with the reaction to a stale cache entry, over an evolving database -/
+namespace PyTrie.HexD
+open PyTrie.Hex PyTrie.Fog
+
+variable (H : Bytes → Bytes)
+
+/-- the loop body with the caller's reaction to `MissingTraversalNode` from `traverse_from(cached parent, …)`: the cache
+    entry is dropped and the prefix is traversed from the root (`except MissingTraversalNode: cache.delete(prefix); retry`).
+    A missing node met on the way from the root propagates. -/
+def cstepDR (db : Db) (root : Hash) (s : CStateD) (p : Path) : Except TErr (Option CStateD) :=
+  match cstepD H db root s p with
+  | .error (.missing h pre) =>
+    match Frontier.get s.cache p with
+    | some _ => cstepD H db root { s with cache := Frontier.delete s.cache p } p
+    | none => .error (.missing h pre)
+  | r => r
+
+/-- one step of a schedule: the database and root hash as they are at that moment, and the prefix chosen -/
+structure StepD where
+  db : Db
+  root : Hash
+  p : Path
+
+/-- a whole walk: between steps the trie may have been modified (the database and root of each step are its own) -/
+def crunDR (s : CStateD) : List StepD → Except TErr (Option CStateD)
+  | [] => .ok (some s)
+  | e :: rest =>
+    match cstepDR H e.db e.root s e.p with
+    | .error err => .error err
+    | .ok none => .ok none
+    | .ok (some s') => crunDR s' rest
+
+def cstartD : CStateD := ⟨Fog.init, [], []⟩
+
+end PyTrie.HexD
